@@ -730,11 +730,6 @@ Section Shortcuts.
   Lemma is_zero_scalar_vnum : forall n, is_zero_scalar (vnum n) = is_zero_num n.
   Proof. intros [z|f]; reflexivity. Qed.
 
-  (* the operands of the divide theorem: everything except an object array that holds a zero number among
-     its divisors (NumPy's comparison of such an array with 0 is not modelled) *)
-  Definition div_dom (a : val) : bool :=
-    match classify (items a) with Other => no_zero_scalars (tl (items a)) | _ => true end.
-
   Lemma guard_no_zero : forall x xs,
     zero_divisor (x :: xs) = false ->
     (match classify (x :: xs) with Other => no_zero_scalars xs | _ => true end) = true ->
@@ -756,15 +751,117 @@ Section Shortcuts.
     - exact Hd.
   Qed.
 
+  (* ---- object arrays: the guard is False only if every zero number among the divisors comes after a list
+     element, and from a list element on the running quotient is a list, for which the verb never gives :undefined *)
+  Fixpoint zsafe (l : list val) : bool :=
+    match l with
+    | [] => true
+    | v :: l' => if is_list v then true else negb (is_zero_scalar v) && zsafe l'
+    end.
+
+  Lemma zfold_true : forall l, zfold (ZB true) l = Some (ZB true).
+  Proof. induction l as [|c l IH]; [reflexivity|exact IH]. Qed.
+
+  Lemma zcmp_nonlist : forall v, is_list v = false -> zcmp v = ZB (is_zero_scalar v).
+  Proof. intros v H. destruct v; try reflexivity; discriminate. Qed.
+
+  Lemma unsafe_guard : forall l, zsafe l = false -> zfold (ZB false) (map zcmp l) = Some (ZB true).
+  Proof.
+    induction l as [|v l IH]; intro H; [discriminate|].
+    cbn [zsafe] in H. destruct (is_list v) eqn:Hl; [discriminate|].
+    cbn [map zfold zc_truth]. rewrite (zcmp_nonlist v Hl).
+    destruct (is_zero_scalar v); [apply zfold_true|]. apply IH. exact H.
+  Qed.
+
+  Lemma guard_obj_safe : forall l, zero_divisor_obj l = false -> zsafe l = true.
+  Proof.
+    intros l H. destruct (zsafe l) eqn:Hs; [reflexivity|].
+    unfold zero_divisor_obj in H. rewrite (unsafe_guard l Hs) in H. discriminate.
+  Qed.
+
+  Lemma ew_sl_list : forall u x lb v, ew_sl u x (VList lb) = Ok v -> is_list v = true.
+  Proof.
+    intros u x lb v H. destruct lb as [|e l]; cbn in H; [inversion H; reflexivity|].
+    destruct (ew_sl u x e); try discriminate.
+    match type of H with context [match ?t with _ => _ end] => destruct t as [[]| |] end;
+      try discriminate; inversion H; reflexivity.
+  Qed.
+
+  Lemma ew2_list_l : forall u la b v, ew2 u (VList la) b = Ok v -> is_list v = true.
+  Proof.
+    intros u la b v H. destruct b as [z|f|c|st|lb|kvs]; cbn in H; try discriminate.
+    - destruct la as [|e l]; [inversion H; reflexivity|].
+      destruct (ew2 u e (VInt z)); try discriminate.
+      match type of H with context [match ?t with _ => _ end] => destruct t as [[]| |] end;
+        try discriminate; inversion H; reflexivity.
+    - destruct la as [|e l]; [inversion H; reflexivity|].
+      destruct (ew2 u e (VReal f)); try discriminate.
+      match type of H with context [match ?t with _ => _ end] => destruct t as [[]| |] end;
+        try discriminate; inversion H; reflexivity.
+    - destruct la as [|e l]; destruct lb as [|y m]; try discriminate; [inversion H; reflexivity|].
+      destruct (negb (Bool.eqb (is_list e) (is_list y))); try discriminate.
+      destruct (ew2 u e y); try discriminate.
+      match type of H with context [match ?t with _ => _ end] => destruct t as [[]| |] end;
+        try discriminate; inversion H; reflexivity.
+  Qed.
+
+  Lemma ew2_list_result : forall u a b v, ew2 u a b = Ok v -> is_list a || is_list b = true -> is_list v = true.
+  Proof.
+    intros u a b v H Hl. destruct a as [z|f|c|st|la|kvs]; try discriminate.
+    - destruct b; try discriminate. eapply (ew_sl_list u (NI z)). exact H.
+    - destruct b; try discriminate. eapply (ew_sl_list u (NR f)). exact H.
+    - eapply ew2_list_l. exact H.
+  Qed.
+
+  Lemma klong_div_list : forall a b, is_list a = true -> klong_div a b = ew2 n_div a b.
+  Proof. intros a b H. unfold klong_div. rewrite H. reflexivity. Qed.
+
+  Lemma fold_klong_div_list : forall xs x, is_list x = true ->
+    fold_res klong_div x xs = fold_res (ew2 n_div) x xs.
+  Proof.
+    induction xs as [|y xs IH]; intros x Hx; [reflexivity|]. cbn [fold_res].
+    rewrite klong_div_list by exact Hx. destruct (ew2 n_div x y) as [v|e|] eqn:He; try reflexivity.
+    apply IH. eapply ew2_list_result; [exact He|]. rewrite Hx. reflexivity.
+  Qed.
+
+  Lemma klong_div_rlist : forall x y, is_list y = true -> klong_div x y = ew2 n_div x y.
+  Proof. intros x y H. unfold klong_div. destruct y; try discriminate. rewrite andb_false_r. reflexivity. Qed.
+
+  Lemma fold_klong_div_safe : forall xs x, zsafe xs = true ->
+    fold_res klong_div x xs = fold_res (ew2 n_div) x xs.
+  Proof.
+    induction xs as [|y xs IH]; intros x H; [reflexivity|]. cbn [zsafe] in H. cbn [fold_res].
+    destruct (is_list y) eqn:Hy.
+    - rewrite (klong_div_rlist x y Hy). destruct (ew2 n_div x y) as [v|e|] eqn:He; try reflexivity.
+      apply fold_klong_div_list. eapply ew2_list_result; [exact He|]. rewrite Hy. apply orb_true_r.
+    - apply andb_prop in H. destruct H as [Hz Hs]. apply negb_true_iff in Hz.
+      rewrite klong_div_nonzero by exact Hz. destruct (ew2 n_div x y); try reflexivity. apply IH. exact Hs.
+  Qed.
+
+  Lemma no_zero_safe : forall l, no_zero_scalars l = true -> zsafe l = true.
+  Proof.
+    induction l as [|v l IH]; intro H; [reflexivity|]. simpl in H. apply andb_prop in H. destruct H as [Hv Hl].
+    cbn [zsafe]. destruct (is_list v); [reflexivity|]. rewrite Hv. apply IH. exact Hl.
+  Qed.
+
+  (* whenever the guard lets the shortcut through, no application of the fold gives :undefined *)
+  Lemma guard_safe : forall x xs, zero_divisor (x :: xs) = false -> zsafe xs = true.
+  Proof.
+    intros x xs Hz. pose proof Hz as Hz'. unfold zero_divisor in Hz.
+    destruct (classify (x :: xs)) as [ns|n rows|] eqn:Hc.
+    - apply no_zero_safe. apply (guard_no_zero x xs Hz'). rewrite Hc. reflexivity.
+    - apply no_zero_safe. apply (guard_no_zero x xs Hz'). rewrite Hc. reflexivity.
+    - apply guard_obj_safe. exact Hz.
+  Qed.
+
   (* %/a: divide.reduce (guarded by `not _has_zero_divisor(a)`) = the expansion with the verb's own
      semantics, :undefined for a zero divisor included *)
   Theorem over_shortcut_divide : forall (a : val) (s : S),
-    div_dom a = true ->
     m_over over_table_model (Some "%"%string) (pure2 klong_div) a s = s_over (pure2 klong_div) a s.
   Proof.
-    intros a s Hdom. unfold m_over.
+    intros a s. unfold m_over.
     destruct (is_atom a) eqn:Ha; [unfold s_over; rewrite Ha; reflexivity|].
-    rewrite s_over_pure by exact Ha. unfold div_dom in Hdom.
+    rewrite s_over_pure by exact Ha.
     destruct (items a) as [|x [|y xs]] eqn:Hit.
     - exfalso; eapply nonatom_items; eauto.
     - reflexivity.
@@ -774,23 +871,18 @@ Section Shortcuts.
       destruct (zero_divisor (x :: y :: xs)) eqn:Hz.
       + rewrite py_reduce_pure. reflexivity.
       + unfold lift. rewrite np_reduce_is_fold by apply uf_ok_divide.
-        cbn [over_pure uf_op]. rewrite fold_res_klong_div; [reflexivity|].
-        apply (guard_no_zero x (y :: xs) Hz). exact Hdom.
+        cbn [over_pure uf_op]. rewrite fold_klong_div_safe; [reflexivity|].
+        apply (guard_safe x (y :: xs) Hz).
   Qed.
 
-  (* the operands on which np.min / np.max is proved equal to the fold: everything except a vector of
-     reals (binary64 min is not associative/commutative in the presence of -0.0 and NaN) *)
-  Definition minmax_dom (a : val) : bool :=
-    match classify (items a) with NumVec ns => all_int ns | _ => true end.
-
-  (* &/a |/a: np.min / np.max on vectors, the generic fold otherwise *)
+  (* &/a |/a: np.min / np.max (= minimum.reduce / maximum.reduce) on vectors, the generic fold otherwise *)
   Theorem over_shortcut_minmax : forall op u (a : val) (s : S),
-    In (op, u) [("&"%string, n_min); ("|"%string, n_max)] -> minmax_dom a = true ->
+    In (op, u) [("&"%string, n_min); ("|"%string, n_max)] ->
     m_over over_table_model (Some op) (pure2 (ew2 u)) a s = s_over (pure2 (ew2 u)) a s.
   Proof.
-    intros op u a s Hin Hdom. unfold m_over.
+    intros op u a s Hin. unfold m_over.
     destruct (is_atom a) eqn:Ha; [unfold s_over; rewrite Ha; reflexivity|].
-    rewrite s_over_pure by exact Ha. unfold minmax_dom in Hdom.
+    rewrite s_over_pure by exact Ha.
     destruct (items a) as [|x [|y xs]] eqn:Hit.
     - exfalso; eapply nonatom_items; eauto.
     - reflexivity.
@@ -799,14 +891,7 @@ Section Shortcuts.
       { simpl in Hin. destruct Hin as [H|[H|[]]]; inversion H; subst; reflexivity. }
       rewrite Hsc. destruct (classify (x :: y :: xs)) as [ns| |] eqn:Hc.
       + unfold lift. apply classify_vec in Hc. rewrite Hc.
-        destruct (all_int_spec ns Hdom) as [zs Hz]. subst ns.
-        destruct zs as [|z zs]; [discriminate|]. cbn [map over_pure]. rewrite fold_res_nums.
-        f_equal. f_equal. f_equal. cbn [np_extreme].
-        simpl in Hin. destruct Hin as [H|[H|[]]]; inversion H; subst.
-        * unfold n_min. rewrite fold_right_NI by reflexivity. rewrite fold_left_NI.
-          f_equal. apply (np_extreme_is_fold_Z Z.min Z.min_assoc Z.min_comm).
-        * unfold n_max. rewrite fold_right_NI by reflexivity. rewrite fold_left_NI.
-          f_equal. apply (np_extreme_is_fold_Z Z.max Z.max_assoc Z.max_comm).
+        destruct ns as [|z zs]; [discriminate|]. cbn [map over_pure]. rewrite fold_res_nums. reflexivity.
       + rewrite py_reduce_pure. reflexivity.
       + rewrite py_reduce_pure. reflexivity.
   Qed.
@@ -1048,29 +1133,39 @@ Section ScanShortcuts.
       unfold lift. rewrite np_accumulate_is_scan by apply uf_ok_same. rewrite cast_first_same. reflexivity.
   Qed.
 
-  Lemma acc_res_klong_div : forall xs x, no_zero_scalars xs = true ->
+  Lemma acc_klong_div_list : forall xs x, is_list x = true ->
     acc_res klong_div x xs = acc_res (ew2 n_div) x xs.
   Proof.
-    induction xs as [|y xs IH]; intros x H; [reflexivity|].
-    simpl in H. apply andb_prop in H. destruct H as [Hy Hxs]. apply negb_true_iff in Hy.
-    cbn [acc_res]. rewrite (klong_div_nonzero x y Hy). destruct (ew2 n_div x y); try reflexivity.
-    rewrite IH by exact Hxs. reflexivity.
+    induction xs as [|y xs IH]; intros x Hx; [reflexivity|]. cbn [acc_res].
+    rewrite klong_div_list by exact Hx. destruct (ew2 n_div x y) as [v|e|] eqn:He; try reflexivity.
+    rewrite IH; [reflexivity|]. eapply ew2_list_result; [exact He|]. rewrite Hx. reflexivity.
+  Qed.
+
+  Lemma acc_klong_div_safe : forall xs x, zsafe xs = true ->
+    acc_res klong_div x xs = acc_res (ew2 n_div) x xs.
+  Proof.
+    induction xs as [|y xs IH]; intros x H; [reflexivity|]. cbn [zsafe] in H. cbn [acc_res].
+    destruct (is_list y) eqn:Hy.
+    - rewrite (klong_div_rlist x y Hy). destruct (ew2 n_div x y) as [v|e|] eqn:He; try reflexivity.
+      rewrite acc_klong_div_list; [reflexivity|]. eapply ew2_list_result; [exact He|]. rewrite Hy. apply orb_true_r.
+    - apply andb_prop in H. destruct H as [Hz Hs]. apply negb_true_iff in Hz.
+      rewrite klong_div_nonzero by exact Hz. destruct (ew2 n_div x y); try reflexivity. rewrite IH by exact Hs. reflexivity.
   Qed.
 
   (* %\a by divide.accumulate (same guard) = the expansion with the verb's own semantics, except that the
      first slot a1 (which the expansion leaves as it is) comes out converted to binary64 when a is a numeric
      array and the shortcut is taken; with a zero divisor the generic path runs and the two are equal *)
   Theorem scan_shortcut_divide : forall (a : val) (s : S),
-    is_atom a = false -> div_dom a = true ->
+    is_atom a = false ->
     m_scan scan_table_model (Some "%"%string) (pure2 klong_div) a s
     = ((if zero_divisor (items a) then fun r => r
         else on_first (fun _ => cast_first {| uf_cast := cast_real; uf_op := n_div |} (items a)))
          (fst (s_scan (pure2 klong_div) a s)), s).
   Proof.
-    intros a s Ha Hdom. unfold m_scan.
+    intros a s Ha. unfold m_scan.
     assert (He : is_empty a = false).
     { unfold is_atom in Ha. destruct (is_iterable a); [exact Ha|discriminate]. }
-    rewrite He, Ha. rewrite s_scan_pure by exact Ha. unfold div_dom in Hdom.
+    rewrite He, Ha. rewrite s_scan_pure by exact Ha.
     destruct (items a) as [|x xs] eqn:Hit; [exfalso; eapply nonatom_items; eauto|].
     change (scan_shortcut scan_table_model (Some "%"%string) (x :: xs))
       with (if zero_divisor (x :: xs) then None
@@ -1079,7 +1174,7 @@ Section ScanShortcuts.
     - unfold bind. rewrite py_accumulate_pure. cbn [fst scan_pure].
       destruct (acc_res klong_div x xs); reflexivity.
     - unfold lift. rewrite np_accumulate_is_scan by apply uf_ok_divide.
-      cbn [fst scan_pure uf_op]. rewrite acc_res_klong_div by (apply (guard_no_zero x xs Hz); exact Hdom).
+      cbn [fst scan_pure uf_op]. rewrite acc_klong_div_safe by (apply (guard_safe x xs Hz)).
       destruct (acc_res (ew2 n_div) x xs); reflexivity.
   Qed.
 End ScanShortcuts.
@@ -1145,19 +1240,20 @@ End Converge.
 
 (* ------------------------------------------------------------------ While: termination and result along the orbit *)
 Section While.
+  Variable kt : bool.
   Variable p g : val -> res val.
   Variable x : nat -> val.
   Variable n : nat.
   Hypothesis Horbit : forall k, (k < n)%nat -> g (x k) = Ok (x (Datatypes.S k)).
-  Hypothesis Htrue : forall k, (k < n)%nat -> exists t, p (x k) = Ok t /\ truthy t = Ok true.
-  Hypothesis Hfalse : exists t, p (x n) = Ok t /\ truthy t = Ok false.
+  Hypothesis Htrue : forall k, (k < n)%nat -> exists t, p (x k) = Ok t /\ truthy kt t = Ok true.
+  Hypothesis Hfalse : exists t, p (x n) = Ok t /\ truthy kt t = Ok false.
 
   Definition while_calls (from len : nat) : list call :=
     flat_map (fun k => [CallP (x k); Call1 (x k)]) (seq from len).
 
   Lemma while_loop_orbit : forall d j fuel log,
     (j + d = n)%nat -> (d < fuel)%nat ->
-    while_loop fuel (loggedp p) (logged1 g) (x j) log
+    while_loop kt fuel (loggedp p) (logged1 g) (x j) log
     = (Ok (x n), log ++ while_calls j d ++ [CallP (x n)]).
   Proof.
     induction d as [|d IH]; intros j fuel log Hj Hf; destruct fuel as [|fuel]; try lia.
@@ -1172,7 +1268,7 @@ Section While.
 
   Theorem while_terminates : forall fuel log,
     (n < fuel)%nat ->
-    m_while fuel (loggedp p) (logged1 g) (x 0%nat) log = (Ok (x n), log ++ while_calls 0 n ++ [CallP (x n)]).
+    m_while kt fuel (loggedp p) (logged1 g) (x 0%nat) log = (Ok (x n), log ++ while_calls 0 n ++ [CallP (x n)]).
   Proof. intros. unfold m_while. apply while_loop_orbit; lia. Qed.
 End While.
 
@@ -1220,16 +1316,17 @@ Section ScanConverge.
 End ScanConverge.
 
 Section ScanWhile.
+  Variable kt : bool.
   Variable p g : val -> res val.
   Variable x : nat -> val.
   Variable n : nat.
   Hypothesis Horbit : forall k, (k < n)%nat -> g (x k) = Ok (x (Datatypes.S k)).
-  Hypothesis Htrue : forall k, (k < n)%nat -> exists t, p (x k) = Ok t /\ truthy t = Ok true.
-  Hypothesis Hfalse : exists t, p (x n) = Ok t /\ truthy t = Ok false.
+  Hypothesis Htrue : forall k, (k < n)%nat -> exists t, p (x k) = Ok t /\ truthy kt t = Ok true.
+  Hypothesis Hfalse : exists t, p (x n) = Ok t /\ truthy kt t = Ok false.
 
   Lemma scan_while_loop_orbit : forall d j fuel log,
     (j + d = n)%nat -> (d < fuel)%nat ->
-    scan_while_loop fuel (loggedp p) (logged1 g) (x j) (orbit_list x (Datatypes.S j)) log
+    scan_while_loop kt fuel (loggedp p) (logged1 g) (x j) (orbit_list x (Datatypes.S j)) log
     = (Ok (VList (orbit_list x n)), log ++ while_calls x j d ++ [CallP (x n)]).
   Proof.
     induction d as [|d IH]; intros j fuel log Hj Hf; destruct fuel as [|fuel]; try lia.
@@ -1247,7 +1344,7 @@ Section ScanWhile.
   (* the collected list holds exactly the orbit elements that satisfy the test: x 0 .. x (n-1) *)
   Theorem scan_while_terminates : forall fuel log,
     (n < fuel)%nat ->
-    m_scan_while fuel (loggedp p) (logged1 g) (x 0%nat) log
+    m_scan_while kt fuel (loggedp p) (logged1 g) (x 0%nat) log
     = (Ok (VList (orbit_list x n)), log ++ while_calls x 0 n ++ [CallP (x n)]).
   Proof.
     intros. unfold m_scan_while. change [x 0%nat] with (orbit_list x 1).
@@ -1256,7 +1353,11 @@ Section ScanWhile.
 End ScanWhile.
 
 (* ------------------------------------------------------------------ the truth test of While / Scan-While *)
-Lemma truthy_is_ktruth : forall t, while_truth_known t = false -> truthy t = Ok (ktruth t).
+Lemma truthy_klong : forall kt, kt = true -> forall t, truthy kt t = Ok (ktruth t).
+Proof. intros kt -> t. reflexivity. Qed.
+
+(* the old Python truth agreed with Klong truth except on lists and the empty dictionary *)
+Lemma py_truth_is_ktruth : forall t, while_truth_known t = false -> truthy false t = Ok (ktruth t).
 Proof.
   intros t H. destruct t as [z|f|c|s|l|kvs]; try reflexivity.
   - destruct s; reflexivity.
